@@ -9,5 +9,5 @@ CONSTANTS
   AliasBug = TRUE
   EraseRetBug = FALSE
 VIEW IView
-INVARIANTS Refines RepInv ReturnsAgree TypeOK Bounded
+INVARIANTS Refines
 CHECK_DEADLOCK FALSE
